@@ -1,10 +1,25 @@
-TECHNIQUE = ('bounded symbolic execution of LLVM IR lowered to C: CBMC/SAT (cadical); real parallel_for '
+TECHNIQUE = ('bounded symbolic execution of LLVM IR lowered to C: CBMC/SAT (cadical); the real parallel_for '
              'instantiated over a mock TaskSetT, sequential task-granularity scheduler harness')
-ASSUMPTIONS = []
-OUTSIDE = ''
+ASSUMPTIONS = [
+    'mock TaskSetT contract: scheduleBulk(count, gen) builds gen(0..count-1) in order; every closure runs exactly once, '
+    'to completion, either before scheduleBulk returns or inside wait(), in a symbolically chosen order '
+    '(task-granularity interleaving: chunk bodies and claim loops are not interleaved at instruction level)',
+    'PerPoolPerThreadInfo::info() is one per-thread record with symbolic initial content (pool thread of this pool / of '
+    'another pool / external thread, ring index -1..N, enclosing parallel_for or not)',
+    'CpuSet::l3CacheGroups() is a constant vector with 0..2 groups; allocSmallBufferImpl/deallocSmallBufferImpl = malloc/free',
+    'detail::alignedMalloc/alignedFree replaced by their contract (fresh block / free) in the solver build (decided '
+    'bit-precisely by C44); the native replay uses the real ones',
+    'explicit chunk sizes are positive; ranges with start > end count as empty',
+]
+OUTSIDE = ('adaptive (stripe) and dynamic (explicit chunk / no-wait auto) scheduling: encoded (instances of tier '
+           '"experimental", harness stripe.cpp) but the solver runs do not finish within the limits because the stripe '
+           'state lives in one raw byte buffer; instruction-level interleaving of claim loops; range sizes and pool sizes '
+           'above the stated bounds; ParForOptions::granularity > 4, minItemsPerChunk > 4; mixed index types; stateful '
+           'overloads with a real state container')
 
 CODE = {'int8_t': 'a', 'uint8_t': 'h', 'int16_t': 's', 'uint16_t': 't', 'int32_t': 'i', 'uint32_t': 'j',
         'int64_t': 'l', 'uint64_t': 'm'}
+MODE = {0: 'static chunking', 1: 'adaptive chunking', 2: 'explicit chunk size 1..4'}
 
 
 def stripe_unwindset(T, S, N, body='9ChunkBody'):
@@ -18,17 +33,57 @@ def stripe_unwindset(T, S, N, body='9ChunkBody'):
             fn + '.6': N + 4}
 
 
-def inst(name, T, mode, S, N, unwind=None, tiers=('quick', 'thorough'), timeout=600, **kw):
+def bounds(T, mode, S, N, kw):
+    size = 'every (start, end) pair of the type' if S == 0 else \
+        'any start of the type with end - start in 0..%d (both type limits included) or start/end swapped' % S
+    if kw.get('VF_EDGE'):
+        size += ', start within %d of the type minimum, of zero or of the type maximum' % kw['VF_EDGE']
+    api = 'per-index body f(i)' if kw.get('VF_API') == 1 else 'chunk body f(begin, end)'
+    return ('%s, %s, %s; %s; numPoolThreads %d..%d; maxThreads 0..%d, INT32_MAX, 2^31, UINT32_MAX; minItemsPerChunk '
+            '0..4; granularity 1..4; wait true/false; symbolic probe index; symbolic caller context and task order' % (
+                T, MODE[mode], api, size, kw.get('VF_NLO', 0), N, N + 2))
+
+
+def inst(name, T, mode, S, N, unwind=None, tiers=('quick', 'thorough'), timeout=900, **kw):
     defs = {'VF_T': T, 'VF_MODE': mode, 'VF_S': S, 'VF_N': N}
     defs.update(kw)
     d = {'name': name, 'src': 'pfor.cpp', 'engine': 'cbmc', 'defs': defs, 'unwind': unwind or S + 2,
-         'timeout': timeout, 'tiers': list(tiers), 'bounds': 'x'}
+         'timeout': timeout, 'tiers': list(tiers), 'bounds': bounds(T, mode, S, N, kw)}
     if mode == 1:
         d['unwindset'] = stripe_unwindset(T, S, N)
     return d
 
 
+def stripe(name, T, S, W, tiers=('experimental',), timeout=1800, **kw):
+    defs = {'VF_T': T, 'VF_S': S, 'VF_W': W, 'VF_L3': 0}
+    defs.update(kw)
+    fn = '_ZN8dispenso6detail15runStripeWorkerI%s17StatefulChunkBodyiEEvRNS0_11StripeStateIT_EEjRT1_RT0_' % CODE[T]
+    us = {fn + '.0': S + 2, fn + '.1': S + 2, fn + '.2': S + 2, fn + '.3': 2, fn + '.4': 2, fn + '.5': 2, fn + '.6': W + 3}
+    return {'name': name, 'src': 'stripe.cpp', 'engine': 'cbmc', 'defs': defs, 'unwind': S + 2, 'unwindset': us,
+            'timeout': timeout, 'tiers': list(tiers),
+            'bounds': '%s, parallel_for_adaptiveWaitDispatch with %d stripe workers, range size 1..%d' % (T, W, S)}
+
+
+Q = ('quick', 'thorough')
+TH = ('thorough',)
+EX = ('experimental',)
 INSTANCES = [
-    inst('i32_static', 'int32_t', 0, 6, 2),
-    inst('i32_adaptive', 'int32_t', 1, 6, 2, VF_WAIT=1),
+    # static chunking: real parallel_for -> adjustChunkSizing/computeGranularity -> parallel_for_staticImpl
+    inst('i32_static', 'int32_t', 0, 5, 2, tiers=Q),
+    inst('u64_static', 'uint64_t', 0, 5, 2, tiers=Q, VF_EDGE=24),
+    inst('i8_static', 'int8_t', 0, 5, 2, tiers=Q),
+    inst('i32_static_index', 'int32_t', 0, 4, 2, tiers=Q, VF_API=1, VF_CTX=0),
+    inst('u8_static', 'uint8_t', 0, 6, 3, tiers=TH),
+    inst('i16_static', 'int16_t', 0, 6, 3, tiers=TH),
+    inst('u16_static', 'uint16_t', 0, 6, 3, tiers=TH),
+    inst('u32_static', 'uint32_t', 0, 6, 3, tiers=TH),
+    inst('i64_static', 'int64_t', 0, 6, 3, tiers=TH, VF_EDGE=24),
+    inst('u64_static_wide', 'uint64_t', 0, 6, 3, tiers=TH, VF_EDGE=24),
+    inst('i32_static_wide', 'int32_t', 0, 8, 3, tiers=TH),
+    # encoded but not finishing (see NOTES.md): run with --tier experimental --only <name>
+    inst('i32_adaptive', 'int32_t', 1, 4, 1, tiers=EX, VF_WAIT=1, VF_NLO=1, VF_L3=0, VF_CTX=0, timeout=1800),
+    inst('u64_adaptive_hi', 'uint64_t', 1, 4, 1, tiers=EX, VF_WAIT=1, VF_NLO=1, VF_L3=0, VF_CTX=0, VF_HI=1, timeout=1800),
+    inst('i32_chunk', 'int32_t', 2, 6, 2, tiers=EX, VF_CTX=0, timeout=1800),
+    stripe('i32_stripe', 'int32_t', 6, 2),
+    stripe('u64_stripe_hi', 'uint64_t', 6, 2, VF_HI=1),
 ]
